@@ -6,10 +6,14 @@
     fn num(c: f64) -> Exp { Exp::Number(c) }
     fn bin(op: BinOp, a: Exp, b: Exp) -> Exp { Exp::BinOp(op, a.to_box(), b.to_box()) }
     fn abs(a: Exp) -> Exp { Exp::Abs(a.to_box()) }
-    fn domain(unbounded: bool) -> IndexMap<String, DomainVariable> {
+    fn domain(unbounded: bool) -> IndexMap<String, DomainVariable> { domain2(if unbounded { 1 } else { 0 }) }
+    // kind 0: all bounded; 1: x unbounded above; 2: x unbounded below; 3: x free
+    fn domain2(kind: u8) -> IndexMap<String, DomainVariable> {
         let mut d = IndexMap::new();
+        let xlo = if kind == 2 || kind == 3 { f64::NEG_INFINITY } else { -3.0 };
+        let xhi = if kind == 1 || kind == 3 { f64::INFINITY } else { 5.0 };
         // declared out of order on purpose; `unused` is never referenced
-        for (n, lo, hi, used) in [("y", -4.0, 2.0, true), ("x", -3.0, if unbounded { f64::INFINITY } else { 5.0 }, true), ("unused", 0.0, 1.0, false), ("b", 0.0, 9.0, true)] {
+        for (n, lo, hi, used) in [("y", -4.0, 2.0, true), ("x", xlo, xhi, true), ("unused", 0.0, 1.0, false), ("b", 0.0, 9.0, true)] {
             let mut dv = DomainVariable::new(VariableType::Real(lo, hi), InputSpan::default());
             if used { dv.increment_usage(); }
             d.insert(n.to_string(), dv);
@@ -102,20 +106,27 @@
             }
         }
         // ---- a missing finite bound is an error naming the variable, never a constant
-        for e in [abs(bin(BinOp::Sub, v("x"), v("y"))), Exp::Max(vec![v("x"), v("y")])] {
-            for cmp in [Comparison::GreaterOrEqual, Comparison::Equal] {
+        let unb: Vec<Exp> = vec![abs(bin(BinOp::Sub, v("x"), v("y"))), Exp::Max(vec![v("x"), v("y")]), Exp::Min(vec![v("x"), v("y")]), Exp::Max(vec![v("x"), num(0.0)]), Exp::Min(vec![v("x"), num(0.0)]),
+                                 Exp::Max(vec![v("y"), v("x"), v("b")]), Exp::Min(vec![v("b"), v("x"), v("y")]), abs(v("x")), bin(BinOp::Sub, num(1.0), Exp::Max(vec![v("x"), v("y")]))];
+        for kind in [1u8, 2, 3] { for e in unb.iter() {
+            for (cmp, obj) in [(Some(Comparison::GreaterOrEqual), None), (Some(Comparison::LessOrEqual), None), (Some(Comparison::Equal), None), (None, Some(OptimizationType::Min)), (None, Some(OptimizationType::Max))] {
                 cases += 1;
-                let model = Model::new(Objective::new(OptimizationType::Satisfy, num(0.0)), vec![Constraint::new(e.clone(), cmp, num(1.0), String::new())], domain(true));
+                let model = match (cmp, obj.clone()) {
+                    (Some(c), _) => Model::new(Objective::new(OptimizationType::Satisfy, num(0.0)), vec![Constraint::new(e.clone(), c, num(1.0), String::new())], domain2(kind)),
+                    (None, Some(o)) => Model::new(Objective::new(o, e.clone()), vec![], domain2(kind)),
+                    _ => unreachable!(),
+                };
+                let cmp = cmp.unwrap_or(Comparison::Equal);
                 match Linearizer::linearize(model) {
                     Err(LinearizationError::MissingFiniteBounds { variables, .. }) => if !variables.iter().any(|s| s == "x") { fail(&mut fails, "the missing-bounds error names the unbounded variables", format!("{} {} 1: {:?}", e, cmp, variables)); },
                     Err(_) => {}
                     Ok(lm) => {
                         // accepted only if no constant depends on the missing bound: all numbers finite is the least to ask
-                        let bad = lm.constraints().iter().any(|r| !r.rhs().is_finite() || r.coefficients().iter().any(|c| !c.is_finite()));
-                        if bad { fail(&mut fails, "no non-finite constant is emitted when a bound is missing", format!("{} {} 1", e, cmp)); }
+                        let bad = lm.constraints().iter().any(|r| !r.rhs().is_finite() || r.coefficients().iter().any(|c| !c.is_finite())) || lm.objective().iter().any(|c| !c.is_finite()) || !lm.objective_offset().is_finite();
+                        if bad { fail(&mut fails, "no non-finite constant is emitted when a bound is missing", format!("domain kind {}: {} {} 1 / objective {:?}", kind, e, cmp, obj)); }
                     }
                 }
             }
-        }
+        } }
         println!("WITNESS-DONE cases={}", cases);
     }
